@@ -34,6 +34,8 @@ Inductive act :=
                           of a received message, and the operations of the exclusive phase of shutdown *)
 | ACallout             (* application code: ClientHook / Returner / PipelineCaller methods, Client.Release, ... *)
 | AWait                (* blocking channel operation / WaitGroup.Wait *)
+| AWaitTasks           (* Conn.tasks.Wait(): waits for every task of the connection -- the waiting
+                          thread must not own a task obligation itself, in any of its frames *)
 | ATasksAdd
 | ATasksDone
 | ATasksGive           (* obligation handed to the environment (Returner) *)
@@ -59,12 +61,20 @@ Inductive stmt :=
 | SSpawn (f : nat)                      (* go f() *)
 | SPanic.                               (* explicit panic: the thread aborts *)
 
-Record state := mkS { held : list lockid; sender : bool; tasks : nat }.
+(* clean: no ENCLOSING call frame of this thread owns a task obligation (the thread as a whole owns
+   none iff clean && tasks = 0) *)
+Record state := mkS4 { held : list lockid; sender : bool; tasks : nat; clean : bool }.
+Definition mkS (h : list lockid) (s : bool) (t : nat) : state := mkS4 h s t true.
 
 Record exit := mkE { e_out : nat; e_held : list lockid; e_sender : bool; e_tasks : nat }.
 
 (* one case of a contract: entry lock state, obligations received at entry, possible exits *)
-Record ccase := mkC { c_held : list lockid; c_sender : bool; c_need : nat; c_exits : list exit }.
+(* c_clean: the case is entered by a thread none of whose frames owns a task obligation at the
+   call (a thread root, or a call made with tasks = 0 from a clean frame) *)
+Record ccase := mkC5 { c_held : list lockid; c_sender : bool; c_need : nat; c_exits : list exit;
+                       c_clean : bool }.
+Definition mkC h s n e : ccase := mkC5 h s n e true.
+Definition mkCn h s n e : ccase := mkC5 h s n e false.
 
 Record fdef := mkF {
   f_name : string;
@@ -84,6 +94,7 @@ Inductive violation :=
 | VTransportNoSender                 (* outbound transport operation without the sender lock *)
 | VRebindHeld (l : lockid)           (* variable naming a held mutex re-assigned *)
 | VLockOrder (l : lockid)            (* a mutex that must be acquired before l is acquired while l is held *)
+| VWaitOwnTask                       (* tasks.Wait() by a thread that still owns a task: waits for itself *)
 | VTasksUnderflow                    (* Done / hand-over of an obligation the function does not own *)
 | VPrecondition (f : nat)            (* contract-only function called in a state its contract does not allow *)
 | VIllFormed.
@@ -109,24 +120,27 @@ Definition no_mutex (σ : state) : bool := match held σ with [] => true | _ => 
 Definition step (a : act) (σ : state) : state + violation :=
   match a with
   | ALock l => if mem l (held σ) then inr (VDoubleLock l)
-               else inl (mkS (insert l (held σ)) (sender σ) (tasks σ))
-  | AUnlock l => if mem l (held σ) then inl (mkS (remove l (held σ)) (sender σ) (tasks σ))
+               else inl (mkS4 (insert l (held σ)) (sender σ) (tasks σ) (clean σ))
+  | AUnlock l => if mem l (held σ) then inl (mkS4 (remove l (held σ)) (sender σ) (tasks σ) (clean σ))
                  else inr (VUnlockNotHeld l)
   | AAcqSender => if negb (mem 0 (held σ)) then inr VSenderNoMutex
                   else if sender σ then inr VSenderDouble
-                  else inl (mkS (held σ) true (tasks σ))
+                  else inl (mkS4 (held σ) true (tasks σ) (clean σ))
   | ARelSender => if negb (mem 0 (held σ)) then inr VSenderNoMutex
-                  else if sender σ then inl (mkS (held σ) false (tasks σ))
+                  else if sender σ then inl (mkS4 (held σ) false (tasks σ) (clean σ))
                   else inr VSenderNotHeld
   | ATransport => if negb (no_mutex σ) then inr (VBlockingUnderMutex a)
                   else if sender σ then inl σ else inr VTransportNoSender
   | ATransportX | ACallout | AWait =>
       if no_mutex σ then inl σ else inr (VBlockingUnderMutex a)
-  | ATasksAdd => inl (mkS (held σ) (sender σ) (S (tasks σ)))
+  | AWaitTasks =>
+      if negb (no_mutex σ) then inr (VBlockingUnderMutex a)
+      else if clean σ && Nat.eqb (tasks σ) 0 then inl σ else inr VWaitOwnTask
+  | ATasksAdd => inl (mkS4 (held σ) (sender σ) (S (tasks σ)) (clean σ))
   | ATasksDone | ATasksGive =>
       match tasks σ with
       | 0 => inr VTasksUnderflow
-      | S n => inl (mkS (held σ) (sender σ) n)
+      | S n => inl (mkS4 (held σ) (sender σ) n (clean σ))
       end
   | ARebind l => if mem l (held σ) then inr (VRebindHeld l) else inl σ
   | AOrder l => if mem l (held σ) then inr (VLockOrder l) else inl σ
@@ -144,24 +158,27 @@ Definition ret_of (r : result) : option (nat * state) :=
   match r with RRet o σ => Some (o, σ) | RNorm σ => Some (0, σ) | _ => None end.
 
 (* a callee sees the caller's locks and owns no obligation *)
-Definition entry_of (σ : state) : state := mkS (held σ) (sender σ) 0.
+Definition entry_of (σ : state) : state :=
+  mkS4 (held σ) (sender σ) 0 (clean σ && Nat.eqb (tasks σ) 0).
 (* after the call: the callee's locks, the caller's obligations plus what the callee left *)
-Definition merge (σ σc : state) : state := mkS (held σc) (sender σc) (tasks σ + tasks σc).
-Definition after (σ : state) (e : exit) : state := mkS (e_held e) (e_sender e) (tasks σ + e_tasks e).
+Definition merge (σ σc : state) : state := mkS4 (held σc) (sender σc) (tasks σ + tasks σc) (clean σ).
+Definition after (σ : state) (e : exit) : state :=
+  mkS4 (e_held e) (e_sender e) (tasks σ + e_tasks e) (clean σ).
 
 Definition branch (o : nat) (s0 s1 : stmt) : stmt := match o with 0 => s0 | _ => s1 end.
 
 Definition list_eqb (a b : list nat) : bool := if list_eq_dec Nat.eq_dec a b then true else false.
 
 Definition case_matches (σ : state) (c : ccase) : bool :=
-  list_eqb (c_held c) (held σ) && Bool.eqb (c_sender c) (sender σ) && Nat.eqb (c_need c) 0.
+  list_eqb (c_held c) (held σ) && Bool.eqb (c_sender c) (sender σ) && Nat.eqb (c_need c) 0
+  && Bool.eqb (c_clean c) (clean σ && Nat.eqb (tasks σ) 0).
 
 Definition find_case (fd : fdef) (σ : state) : option ccase := find (case_matches σ) (f_cases fd).
 
 (* obligations a spawned body receives: its contract must have exactly one case, entered
    without any lock *)
 Definition spawn_need (fd : fdef) : option nat :=
-  match f_cases fd with
+  match filter c_clean (f_cases fd) with   (* a new goroutine is a thread root *)
   | [c] => match c_held c, c_sender c with [], false => Some (c_need c) | _, _ => None end
   | _ => None
   end.
@@ -215,7 +232,7 @@ Inductive exec : stmt -> state -> result -> Prop :=
     nth_error P f = None -> exec (SCall f s0 s1) σ (RFail VIllFormed)
 | E_Spawn : forall f fd n σ,
     nth_error P f = Some fd -> spawn_need fd = Some n -> n <= tasks σ ->
-    exec (SSpawn f) σ (RNorm (mkS (held σ) (sender σ) (tasks σ - n)))
+    exec (SSpawn f) σ (RNorm (mkS4 (held σ) (sender σ) (tasks σ - n) (clean σ)))
 | E_SpawnUnder : forall f fd n σ,
     nth_error P f = Some fd -> spawn_need fd = Some n -> tasks σ < n ->
     exec (SSpawn f) σ (RFail VTasksUnderflow)
@@ -303,12 +320,12 @@ Fixpoint chk (s : stmt) (σ : state) : option (list cres) :=
           match spawn_need fd with
           | None => None
           | Some n => if Nat.leb n (tasks σ)
-                      then Some [CNorm (mkS (held σ) (sender σ) (tasks σ - n))] else None
+                      then Some [CNorm (mkS4 (held σ) (sender σ) (tasks σ - n) (clean σ))] else None
           end
       end
   end.
 
-Definition init (c : ccase) : state := mkS (c_held c) (c_sender c) (c_need c).
+Definition init (c : ccase) : state := mkS4 (c_held c) (c_sender c) (c_need c) (c_clean c).
 
 Definition exit_matches (o : nat) (σ : state) (e : exit) : bool :=
   Nat.eqb (e_out e) o && list_eqb (e_held e) (held σ) && Bool.eqb (e_sender e) (sender σ)
